@@ -76,6 +76,17 @@ Theorem C04_threshold_fits : forall cap t, (t_size t <= cap)%nat -> t_minval cap
 Proof. exact t_minval_fits. Qed.
 Print Assumptions C04_threshold_fits.
 
+(* the hypotheses are met by every tree the system builds: trees made by Insert are well-formed and exact (C09 adds:
+   Merge preserves both), and every decoded tree is again well-formed and exact, so it can be re-encoded *)
+Theorem C04_hypotheses_reachable :
+  (forall ss : list (bytes * N),
+     let t := fold_left (fun t kv => t_insert (fst kv) (snd kv) t) ss t_empty in
+     t_wfb t = true /\ t_exactb t = true) /\
+  (forall th t, t_wfb t = true ->
+     t_wfb (t_retotal (t_prune th t)) = true /\ t_exactb (t_retotal (t_prune th t)) = true).
+Proof. split; [exact built_wf_exact|]. intros th t H. split; [exact (R_wf th t H)|apply t_retotal_exact]. Qed.
+Print Assumptions C04_hypotheses_reachable.
+
 (* regression for D1, machine-checked: with the threshold function as it was before fix c217b1a (smallest
    collected total even when the whole tree fits the budget) the profile "a;b 5" encodes to bytes that decode to
    the empty tree; with the current threshold it round-trips *)
